@@ -24,4 +24,9 @@ void verif_depth_limit(std::uint64_t n);
 void verif_uf(const char* name, const void* in, std::size_t in_len, void* out, std::size_t out_len);
 // known-finding region directive (DESIGN.md 3): excluded by assumption in the main run, assumed in the finding run
 bool verif_known(const char* finding_id, bool in_region);
+// lock discipline (C36): accesses to a watched region made inside a named context are logged together with the mutexes held
+// (Engine S; no-ops natively, where ThreadSanitizer runs the real threads instead)
+void verif_watch(const void* p, std::size_t n, const char* region);
+void verif_lock_name(const void* mutex, const char* name);
+void verif_context(const char* name);       // "" ends the context
 }
